@@ -194,6 +194,19 @@ def run(ctx):
     con.steps = c_slice.STEPS_THOROUGH if thorough else c_slice.STEPS_QUICK
     eng = mk_engine(contracts=[con] + c_width.CONTRACTS)
     ctx.verify(eng, [con], replay=replay_slice_inner, min_obligations={con.key: 100})
+    # the same contract for every other sliceable parent (its width comes from the width helper's contract)
+    from hdl21.bundle import BundleRef
+    con2 = c_slice.SliceInnerContract()
+    con2.steps = [None, 1, -1, 2, -3]
+    con2.parent_classes = (Slice, Concat, PortRef, BundleRef)
+    eng2 = mk_engine(contracts=[con2] + c_width.CONTRACTS)
+    ctx.verify(eng2, [con2], replay=None, min_obligations={con2.key: 40})
+    ctx.functions[-1]["function"] += " [parents: Slice, Concat, PortRef, BundleRef]"
+    # width(): dispatch over the connectable kinds
+    ctx.verify(c_width.verify_engine(), c_width.VERIFY_WIDTH, min_obligations={c_width.VERIFY_WIDTH[0].key: 30})
+    # Slice.top/bot/step/width and the cached SliceInner
+    from contracts import c_export
+    ctx.verify(c_export.engine(), [c for c in c_export.VERIFY if c.key.startswith("hdl21.slice:")])
     ctx.assumptions.append("slice steps: one scenario per constant step in [-%d, %d] (width, start, stop unbounded)"
                            % ((16, 16) if thorough else (4, 4)))
 
